@@ -19,6 +19,9 @@ Third part (harness/props/c02_ext.py, lean/NipyVerif/Model/C02C.lean): `progx` (
 whole operation language: every index kind, rollimg fix0, ImageList items, re-observation, data access),
 `acm` / `grid` / `fromshape` (ArrayCoordMap, Grid), `xyzaff` (xyz_affine), `ornto` (io_orientation of
 affines with orthogonal columns, no SVD), `rt` (round trips).
+Tie (a) (harness/props/c02_translate.py -> lean/NipyVerif/Gen/C02Source.lean, theorems in
+lean/NipyVerif/Props/C02Source.lean): the expressions the property hinges on are regenerated from the text of
+image.py / image_list.py / image_spaces.py / array_coords.py as Lean terms and proved to be the model's.
 """
 from __future__ import annotations
 
@@ -60,7 +63,7 @@ def gen_image(rng, small=False, nd=None):
     nout = nd + (1 if rng.random() < 0.1 else 0)
     inn = rng.choice(IN_POOLS)[:nd]
     outn = rng.choice(OUT_POOLS)[:nout]
-    kind = rng.choice(["diag", "flip", "perm", "oblique", "oblique", "zerotr", "dyadic", "shear", "rot"])
+    kind = rng.choice(["diag", "flip", "perm", "oblique", "oblique", "zerotr", "dyadic", "shear", "rot", "mag"])
     A = np.zeros((nout, nd))
     vals = [1, 2, 3, 4, 5, 0.5, 1.5, 0.25]
     if kind in ("diag", "flip", "zerotr", "dyadic"):
@@ -88,6 +91,15 @@ def gen_image(rng, small=False, nd=None):
             a_, b_ = rng.choice([(3, 4), (4, 3), (1, 2), (5, 12), (2, 1)])
             z1, z2 = rng.choice([1, 0.5, 2]), rng.choice([1, 0.25, 3])
             A[i_, i_], A[j_, i_], A[i_, j_], A[j_, j_] = a_ * z1, b_ * z1, -b_ * z2, a_ * z2
+    elif kind == "mag":
+        # magnitudes far from 1 (exact in binary64): a scaled signed permutation, sometimes with one leak
+        p = list(range(nd)); rng.shuffle(p)
+        for k in range(nd):
+            A[p[k], k] = rng.choice([4096, -1024, 768, 1 / 4096, -1 / 1024, 5 / 512])
+        if nd >= 2 and rng.random() < 0.4:
+            r_, k_ = rng.randrange(nd), rng.randrange(nd)
+            if A[r_, k_] == 0:
+                A[r_, k_] = rng.choice([2048, -1 / 2048])
     elif kind == "perm":
         p = list(range(nd)); rng.shuffle(p)
         for k in range(nd):
@@ -96,7 +108,8 @@ def gen_image(rng, small=False, nd=None):
         for r in range(nout):
             for k in range(nd):
                 A[r, k] = rng.choice([0, 0, 1, -1, 2, -2, 3, 0.5, -0.25])
-    b = [rng.choice([0, 1, -2, 3.5, 10, -7.25]) for _ in range(nout)]
+    b = [rng.choice([0, 1, -2, 3.5, 10, -7.25] if kind != "mag" else [0, 65536, -1 / 2048, 12345.5])
+         for _ in range(nout)]
     aff = np.zeros((nout + 1, nd + 1))
     aff[:nout, :nd] = A
     aff[:nout, nd] = b
@@ -123,6 +136,8 @@ def gen_atom(rng, n, bad=False):
             return ["S", None, None, 0]
         return ["S", rng.choice([n, n + 2]), None, None] if rng.random() < 0.5 else ["S", 1, 1, None]
     r = rng.random()
+    if n == 0:                                # an empty axis: nothing is in range
+        return rng.choice([["S", None, None, None], ["I", 0], ["I", -1], ["S", None, None, -1], ["S", 0, 1, None]])
     if r < 0.22:
         return ["I", rng.randrange(-n, n)]
     if r < 0.40:
@@ -287,7 +302,22 @@ def build_image(spec):
     data = with_layout(data, spec.get("layout", "C"))
     cmap = AffineTransform(CoordinateSystem(spec["in"], "voxels"), CoordinateSystem(spec["out"], "world"),
                            np.array(spec["aff"], dtype=float))
-    return Image(data, cmap), data
+    return Image(data, cmap, {"header": {"descrip": "c02"}, "note": [1, 2]}), data
+
+
+def meta_probe(res, src):
+    """edit the metadata of every image in `res` the way a caller would (a new key, a new header through the
+    deprecated `header` property): the snapshots of `src` and of every earlier object must not notice"""
+    items = res if isinstance(res, (list, tuple)) else [res]
+    for it in items:
+        md = getattr(it, "metadata", None)
+        if md is None or it is src or not hasattr(it, "coordmap"):
+            continue
+        md["probe"] = md.get("probe", 0) + 1
+        try:
+            it.header = dict(it.header, touched=md["probe"])
+        except AttributeError:
+            pass
 
 
 def with_layout(data, layout):
@@ -745,7 +775,7 @@ def check_iteration(els, arrs, img0, data0, base, refmap, shape, what):
 
 def img_snapshot(img):
     return Snapshot(data=np.asarray(img.get_fdata()), aff=img.affine, inn=list(img.axes.coord_names),
-                    out=list(img.reference.coord_names))
+                    out=list(img.reference.coord_names), meta=img.metadata)
 
 
 def _tok_same(x, y):
@@ -770,7 +800,8 @@ def _tok_same(x, y):
 class C02(PropertyCheck):
     id = "C02"
     title = "Image manipulations keep every value at its world position"
-    lean_modules = ["NipyVerif.Props.C02", "NipyVerif.Props.C02B", "NipyVerif.Props.C02C"]
+    lean_modules = ["NipyVerif.Props.C02", "NipyVerif.Props.C02B", "NipyVerif.Props.C02C",
+                    "NipyVerif.Props.C02Source", "NipyVerif.Props.C02Polar"]
     driver = "Drivers/C02.lean"
     rule = ("a case is an image (1..5-D incl. all-singleton and one-proper-axis shapes, arange data, integer/"
             "dyadic affine: diagonal, flipped, signed permutation, oblique, zero-TR; optional extra output "
@@ -794,7 +825,12 @@ class C02(PropertyCheck):
             "stop, zero step, wrong number of slices, integer and float bounds] and ArrayCoordMap.from_shape; "
             "(xyzaff) xyz_affine on 2..5-D images; (ornto) io_orientation on integer / dyadic matrices with "
             "mutually orthogonal columns; (rt) round trips rollimg(a, s) / back, rollaxis / inverse, reorder / "
-            "inverse order, rename / back, shuffle / synchronized_order. Non-trivial = at least one operation "
+            "inverse order, rename / back, shuffle / synchronized_order. Wave 4: affines with magnitudes far from 1 "
+            "(2^12 ... 2^-12 scaled signed permutations with a leak, offsets up to 65536); every generated image "
+            "carries metadata (a header dictionary and a list) and after every successful operation the "
+            "result's metadata are edited the way a caller would (new key, `img.header = ...`): the byte "
+            "digests of the source and of every earlier object now include their metadata; (xbool, oracle only) "
+            "index tuples holding a boolean selector. Non-trivial = at least one operation "
             "succeeded and the image has more than one voxel; distinct by JSON of the case")
     assumptions = [
         "nibabel.io_orientation: the SVD (polar factor R of the column-normalised linear part) is a parameter; "
@@ -805,7 +841,10 @@ class C02(PropertyCheck):
         "orthogonal (rotations x zooms; `Q` in the protocol) the model computes the orientation itself too, "
         "in rational arithmetic on squared entries (orthOrnt; proved equal to the loop run on the "
         "column-normalised matrix, which is a partial isometry and hence its own polar factor - that last "
-        "step, uniqueness of the polar factor, is linear algebra not formalised, compared numerically on every "
+        "step is now a theorem, Props/C02Polar.polar_factor_of_partial_isometry: for EVERY decomposition "
+        "RS = P diag(S) Qs with orthonormal columns of P, orthonormal rows of Qs, S >= 0, the singular values "
+        "are 0 or 1 and P[:, S > tol] @ Qs[S > tol] = RS for every 0 < tol < 1; what remains a parameter is "
+        "that LAPACK's output satisfies the SVD equations up to rounding, compared numerically on every "
         "case); the harness uses `Q` only when every comparison of the loop is decided with a margin (unique "
         "largest entry per column, different columns prefer different rows): on exact ties floating-point "
         "rounding inside the SVD decides and the orientation is passed as a parameter; for all other affines "
@@ -825,14 +864,29 @@ class C02(PropertyCheck):
         "get_list_data is modelled for lists whose items have one shape (what from_image and list slicing "
         "produce); NumPy broadcasting of unequal items is outside the model",
         "index kinds: a list / integer array entry is modelled as an in-range fancy index (NumPy accepts it, "
-        "ArrayCoordMap refuses it); boolean scalars / boolean arrays as indices are not generated; NumPy "
-        "integer scalars are plain integers to the model",
+        "ArrayCoordMap refuses it); boolean selectors (Python / NumPy booleans, boolean masks as arrays and "
+        "lists, 0-1 integer lists, thresholded scores) are outside the model: they are generated as the "
+        "oracle-only kind `xbool` (any documented refusal is legal - nipy refuses all of them today -, an "
+        "accepted one must satisfy the property); NumPy integer scalars are plain integers to the model",
         "np.ogrid (inside Grid.__getitem__) is modelled by its documented arithmetic: ceil((stop-start)/step) "
         "points for a real step, n points for a step nj, missing stop -> AttributeError (NumPy's fallback on "
         "the tuple), zero step -> ZeroDivisionError; only tuple indices (what from_shape passes) are modelled, "
         "a bare slice (np.ogrid then returns one array that nipy iterates element-wise) is not",
         "memory layout and dtype of the data array are invisible to the model (values only): the harness "
         "presents the same numbers in nine dtypes and six layouts and compares values",
+        "tie (a): Gen/C02Source.lean is regenerated from the source text before every build; Python list "
+        "primitives are read as their documented meaning (`list.remove(x)` = erase the first x, "
+        "`list.insert(p, x)` = the model's pyInsert, `l[::-1]` = reverse, `n * (slice(None),)` = replicate with "
+        "negative n giving the empty tuple, `a[i:]` / `a[:i]` = drop / take for 0 <= i); a source shape the "
+        "translator does not recognise is a broken tie (TieBroken), never a silent default",
+        "the frame theorem (manipulations_write_through_no_parameter) is syntactic: it scans 46 functions (the "
+        "manipulation functions of image.py / image_list.py / image_spaces.py / array_coords.py and the "
+        "coordinate_map.py functions they call) for writes through a parameter or through a name that may share "
+        "memory with one (attributes, subscripts, method calls other than copy / astype / ..., NumPy's "
+        "view-making functions); control flow is not followed (only an unconditional top-level rebinding to a "
+        "fresh value ends an alias); writes inside NumPy / nibabel / unscanned functions and aliasing through "
+        "results of other free functions are not seen by it - the oracle's byte digests cover those on the "
+        "generated cases",
     ]
     level_note = ("proved (Lean, all inputs): slice arithmetic and the index map of every slice tuple; reorder / "
                   "rename / rollimg / rollaxis / synchronized_order / iter_axis (partition) / ImageList "
@@ -851,11 +905,43 @@ class C02(PropertyCheck):
                   "are proved for every value of it (they can only reorder or refuse). For orthogonal columns "
                   "the orientation is computed by the model (orth_ornt_is_io_orientation_loop, "
                   "orth_columns_partial_isometry); the identification of nibabel's SVD-based polar factor with "
-                  "the normalised matrix is numerical. oracle-only: 'the original is left unchanged' on the "
-                  "real objects (byte digests, fresh-copy comparison, re-observation), refusal classes of "
-                  "requests outside the quantifier, dtype / memory layout independence, Image.__eq__ / "
-                  "coordmap equality of results, that caller-supplied order lists / index tuples are not "
-                  "modified")
+                  "the normalised matrix is proved for every exact singular value decomposition "
+                  "(Props/C02Polar: singular_values_of_partial_isometry, polar_factor_of_partial_isometry, over "
+                  "Mathlib matrices on the reals); only LAPACK's rounding is numerical. Tie (a), Props/C02Source (50 theorems over "
+                  "terms regenerated from the source text): np.transpose and reordered_domain get the same "
+                  "permutation (reordered_axes_synchronised / _as_modelled, skip-when-identity is the identity), "
+                  "data and ArrayCoordMap get the same index (getitem_index_synchronised / getitem_as_modelled), "
+                  "the order lists of rollimg / rollaxis (both directions) are the model's for every ndim / axis / "
+                  "start, Ellipsis expansion + padding = acmExpand for every index tuple, the three branches of "
+                  "_slice give (effStep, start, len, kept) for every non-empty selection, the -slice rule, "
+                  "get_list_data's refusal test / axis correction / shape, Grid.__getitem__'s (step, start), the "
+                  "origin / column vectors / ticks of xslice, yslice, zslice = planeSlice, integer axis "
+                  "identifiers of input_axis_index / io_axis_indices, from_image's dropout flag; the order lists "
+                  "as regenerated are permutations for every ndim / axis / start (rollimg_order_is_permutation, "
+                  "rollaxis_*_is_permutation) and the coordmap's Ellipsis expansion is NumPy's on every index "
+                  "NumPy accepts (coordmap_expansion_is_numpy_expansion); iter_axis, synchronized_order, "
+                  "ImageList.from_image, as_xyz_image, input_axis_index / io_axis_indices / axmap / drop_io_dim, "
+                  "the name resolution of rollaxis, signatures and defaults statement by statement. 'The original is left unchanged' / 'caller-supplied order lists and "
+                  "index tuples are not modified' are now also a syntactic frame theorem on the text "
+                  "(manipulations_write_through_no_parameter: no statement of the 46 scanned functions - the "
+                  "manipulations and their coordinate_map.py callees - writes through a parameter or a possible "
+                  "alias of one; the 4 exceptions - two integer `axis +=`, ImageList's iterator "
+                  "state, a reshape of a fresh array - are listed and touch no image). Still oracle-only, with "
+                  "the reason: the same facts on the real objects below the text of these files (writes inside "
+                  "NumPy / coordinate_map.py callees, views sharing memory: byte digests incl. metadata, "
+                  "fresh-copy comparison, re-observation); refusal *classes* of requests outside the quantifier "
+                  "(the model computes them and the correspondence compares them line by line, the property "
+                  "says nothing about them, so there is nothing to prove beyond 'refused'); dtype / memory "
+                  "layout independence (NumPy's strided indexing is below the model: step_natural proves the "
+                  "model never looks at values, the nine dtypes x six layouts are compared); Image.__eq__ of a "
+                  "result with the result on a fresh copy (Image.__eq__ ignores the reference names, so it is "
+                  "weaker than the model's state comparison and only a sanity clause)")
+
+    # ------------------------------------------------------------------ tie (a): source text -> Lean
+    def translators(self):
+        from harness.core import REPO, TieBroken
+        from harness.props import c02_translate
+        return c02_translate.translate(REPO, TieBroken)
 
     # ------------------------------------------------------------------
     def fixed_images(self):
@@ -894,7 +980,7 @@ class C02(PropertyCheck):
     def generate(self, rng, tier):
         q = tier == "quick"
         nseq, nslice = (3200, 300) if q else (40000, 4000)
-        nprog, nilist, niter = (500, 500, 300) if q else (6000, 6000, 3000)
+        nprog, nilist, niter = (700, 500, 300) if q else (6000, 6000, 3000)
         nhelp = 120 if q else 1500
         cases = []
         for _ in range(nseq):
@@ -1089,6 +1175,7 @@ class C02(PropertyCheck):
             elif cls not in LEGAL_REFUSALS:
                 fail = fail or f"{what}: unexpected {cls}: {e} for {op}"
             return None, "E " + errname(e) + arr_obs, f"{op[0]}:refused", fail, None, refmap
+        meta_probe(res, img)
         ch = snap.changed()
         if ch:
             mut = f"{what} changed its input image ({ch})"
@@ -1119,7 +1206,7 @@ class C02(PropertyCheck):
             return self._slice(case)
         if kind in ("iter", "ilist", "fromarray", "pslice", "bbox", "ornt", "mkxyz"):
             return getattr(self, "_" + kind)(case)
-        if kind in ("progx", "acm", "grid", "fromshape", "xyzaff", "ornto", "rt"):
+        if kind in ("progx", "acm", "grid", "fromshape", "xyzaff", "ornto", "rt", "xbool"):
             from harness.props import c02_ext
             if kind == "progx" and "gen" in case:
                 case = c02_ext.materialise_progx(case)
